@@ -19,7 +19,7 @@ OVERLAY_DIRS = {
 
 def rapid_part(name, pkg, run, quick, thorough, shards=16, race=False, tags="", replay_test=None, **kw):
     d = dict(name=name, pkg=pkg, run=run, kind="rapid", race=race, tags=tags,
-             quick=dict(checks=quick, timeout=kw.pop("qtimeout", 600)),
+             quick=dict(checks=quick, shards=kw.pop("qshards", 1), timeout=kw.pop("qtimeout", 600)),
              thorough=dict(checks=thorough, shards=shards, timeout=kw.pop("ttimeout", 1500)))
     if replay_test:
         d["replay_test"] = replay_test
@@ -218,6 +218,15 @@ CHECKS["C09"] = dict(
     parts=[rapid_part("graphs", "compose", "TestC09", 600, 5000, race=True, replay_test="TestC09Replay", replay_reps=5),
            rapid_part("react", "flow/agent/react", "TestC09React", 400, 3000, race=True, replay_test="TestC09ReactReplay", replay_reps=5),
            rapid_part("host", "flow/agent/multiagent/host", "TestC09Host", 400, 3000, race=True, replay_test="TestC09HostReplay", replay_reps=5)],
+)
+
+CHECKS["C19"] = dict(
+    technique="property-based testing (rapid): generated graphs x real Pipe producers x early-close points x handler behaviours; oracle = goroutine-dump fixed point (no goroutine created by the run stays blocked) + producer-side finished/closed observation",
+    level_text="Generated graphs of every kind (nesting, fan-out/fan-in, stream branches that read one chunk and close, key mappings), with every node output stream and the caller's input stream produced by a real goroutine writing to a Pipe of capacity 0-2, lazy transformers, callback handlers that close their stream copies at once / after one chunk / after reading all (inline or in a goroutine); the caller reads 0,1,2 chunks and closes or reads to EOF. In scope = the reference model says the run reaches END with no produced value lacking a consumer. Oracle: after the caller's close every producer finished or saw closed, and every goroutine created during the case is gone; a violation is reported only at a fixed point (three consecutive dumps, same goroutines, all blocked on channel/select/sync waits), with the stacks; budget exhaustion without a fixed point is inconclusive and only counted.",
+    level_note="Which interleavings occur is left to the Go scheduler; a leak that needs a specific interleaving is found only if that interleaving happens.",
+    rule="rapid draws the graph, input, paradigm, pipe capacity, laziness, read count and handler mode; non-trivial = in scope, >= 2 producers, an early close (caller, handler or prefix branch) and a graph with a branch, fan-in, nesting or fan-out; distinct = FNV-1a of case JSON",
+    assumptions=GRAPH_ASSUME,
+    parts=[rapid_part("leaks", "compose", "TestC19", 400, 8000, qshards=8, replay_test="TestC19Replay", replay_reps=3)],
 )
 
 # properties not claimed (with reason); everything else not in CHECKS is "not built yet"
